@@ -276,6 +276,34 @@ def crop_obligations(v, rule, footprint):
 # --------------------------------------------------------------------------
 
 
+def registration_obligations(SA, halo, rule_unit="R-UNIT", rule_reg="R-REG"):
+    """footprint coefficient == forward response per unit source displaced by the cropped cells"""
+    obs = []
+    S, vd = views(SA, False, False, "generic", halo=halo)
+    S, vf = views(SA, True, False, "generic", halo=halo)
+    d = _prepare(_one(pick(vd, shifted=False), "dispersion"))
+    f = _prepare(_one(pick(vf), "footprint"))
+    site = f.site("footprint branch (halo %s)" % halo)
+    fi, di = RS.second_ivp_initial(f), RS.second_ivp_initial(d)
+    if len(fi) == 2 and len(di) == 2:
+        q0f, q0d = fi[1][1], di[1][1]
+        obs.append(eq_ob(rule_unit, site, "footprint source spectrum is that of a unit cell source on the padded grid", q0f, ONE / (f.Ny * f.Nx), "delta at one cell: flat spectrum 1/(nxe nye)", key={"halo": halo}))
+        lx, ly = f.wavenumbers()
+        off = alg.exp(IMAG * (lx * f.px * f.dx + ly * f.py * f.dy))
+        z0 = RS.zero_tower(S)
+        for nm in ("flx", "conc"):
+            cf, cd = f.coeff(nm), d.coeff(nm)
+            if isinstance(cf, Expr) and isinstance(cd, Expr) and isinstance(q0d, Expr) and isinstance(q0f, Expr):
+                obs.append(eq_ob(rule_reg, site, "%s: Green's function at tower (0,0) is the forward response per unit source, displaced by the cropped cells" % nm,
+                                 cf.subs(z0) * q0d, off * cd * q0f, "G registered at x_m + px*dx, y_m + py*dy with px, py the crop offsets", key={"out": nm, "halo": halo}))
+                obs.append(eq_ob(rule_reg, site, "%s: tower position enters as exp(i(lx*xm + ly*ym))" % nm, cf, alg.exp(IMAG * (lx * S.xm + ly * S.ym)) * cf.subs(z0), key={"out": nm, "halo": halo}))
+            else:
+                obs.append(req_ob(rule_reg, site, "%s coefficients are algebraic" % nm, None, detail="%r / %r" % (cf, cd)))
+    else:
+        obs.append(req_ob(rule_unit, site, "two auxiliary problems in both modes", False))
+    return obs, f, d
+
+
 @solver_check
 def check_C02(P, tier, SA, holder):
     R = holder["R"] = Result("C02", tier)
@@ -288,28 +316,8 @@ def check_C02(P, tier, SA, holder):
                      "(R-CROP) pad/crop/coordinates; (R-DOT) point_measurement is the plain sum of the product. Rounding residuals are not decided.")
     R.trusted = [TRUST_NUMPY, TRUST_ALG, "DFT shift theorem / reciprocity of the discrete convolution"]
     for halo in ("given", "none"):
-        S, vd = views(SA, False, False, "generic", halo=halo)
-        S, vf = views(SA, True, False, "generic", halo=halo)
-        d = _prepare(_one(pick(vd, shifted=False), "dispersion"))
-        f = _prepare(_one(pick(vf), "footprint"))
-        site = f.site("footprint branch (halo %s)" % halo)
-        fi, di = RS.second_ivp_initial(f), RS.second_ivp_initial(d)
-        if len(fi) == 2 and len(di) == 2:
-            q0f, q0d = fi[1][1], di[1][1]
-            R.add(eq_ob("R-UNIT", site, "footprint source spectrum is that of a unit cell source on the padded grid", q0f, ONE / (f.Ny * f.Nx), "delta at one cell: flat spectrum 1/(nxe nye)", key={"halo": halo}))
-            lx, ly = f.wavenumbers()
-            off = alg.exp(IMAG * (lx * f.px * f.dx + ly * f.py * f.dy))
-            z0 = RS.zero_tower(S)
-            for nm in ("flx", "conc"):
-                cf, cd = f.coeff(nm), d.coeff(nm)
-                if isinstance(cf, Expr) and isinstance(cd, Expr) and isinstance(q0d, Expr) and isinstance(q0f, Expr):
-                    R.add(eq_ob("R-REG", site, "%s: Green's function at tower (0,0) is the forward response per unit source, displaced by the cropped cells" % nm,
-                                cf.subs(z0) * q0d, off * cd * q0f, "G registered at x_m + px*dx, y_m + py*dy with px, py the crop offsets", key={"out": nm, "halo": halo}))
-                    R.add(eq_ob("R-REG", site, "%s: tower position enters as exp(i(lx*xm + ly*ym))" % nm, cf, alg.exp(IMAG * (lx * S.xm + ly * S.ym)) * cf.subs(z0), key={"out": nm, "halo": halo}))
-                else:
-                    R.add(req_ob("R-REG", site, "%s coefficients are algebraic" % nm, None, detail="%r / %r" % (cf, cd)))
-        else:
-            R.add(req_ob("R-UNIT", site, "two auxiliary problems in both modes", False))
+        obs, f, d = registration_obligations(SA, halo)
+        R.add(obs)
         R.add(crop_obligations(f, "R-CROP", True))
         R.add(crop_obligations(d, "R-CROP", False))
         R.add(reflect_obligations(SA, "R-REFLECT", halo))
@@ -376,6 +384,8 @@ def check_C03(P, tier, SA, holder):
     d0 = _one(pick(vd, shifted=False), "dispersion unshifted")
     R.add([o for o in RS.step_obligations(d0, 1, "R-HALO", uniform=False) if "(q<-p), coefficient of dz^1" in o.what])
     for halo in ("given", "none"):
+        obs, _f, _d = registration_obligations(SA, halo, "R-NORM", "R-HALO")
+        R.add(obs)
         for fp in (False, True):
             S, vs = views(SA, fp, False, "generic", halo=halo)
             v = _one(pick(vs, shifted=None if fp else True), "generic path")
